@@ -1,6 +1,10 @@
-(* C19 - layout writes into child.style: hand model of the cross axis of flex_layout (weasyprint/layout/flex.py, steps
-   7, 8, 9, 11 and the write-back `child.style[cross] = Dimension(line.cross_size - margins, 'px')` of step 14) for a
-   row container (cross = height), with the style as state.  Definitions only.
+(* C19 - layout and child.style: hand model of the cross axis of flex_layout (weasyprint/layout/flex.py, steps 7, 8, 9,
+   11 and the write `child.style[cross] = Dimension(line.cross_size - margins, 'px')` of step 14) for a row container
+   (cross = height), with the style as state.  Since c81ab3a the write goes to a copy of the item with its own copy of
+   the style (`child = child.copy(); child.style = child.style.copy()`), used for the rest of this layout only: the
+   styles the next layout of the same boxes starts from are the ones this layout started from (`after`).  The earlier
+   behaviour (the style shared by every copy of the box is written) is kept as `after_shared_style`, the variant the
+   proofs refute.  Definitions only.
 
    An item carries style['height'] (None = auto), the height its content takes when the height is auto, the sum of its
    cross-axis margins, borders and paddings (box-sizing: content-box, no auto margin), and whether align-self
@@ -43,7 +47,7 @@ Definition stretched (i : item) : bool := i_stretch i && match i_style i with No
 
 (* step 11 / the final layout of the item: its used cross size *)
 Definition used (lsize : Q) (i : item) : Q := if stretched i then lsize - i_mbp i else height i.
-(* step 14: the write-back into the style shared by every copy of the box *)
+(* step 14: the stretched size written into the style (of the item's private copy) *)
 Definition write_back (lsize : Q) (i : item) : item :=
   if stretched i then imk (Some (lsize - i_mbp i)) (i_nat i) (i_mbp i) (i_stretch i) else i.
 
@@ -56,8 +60,13 @@ Definition layout (c : container) : list (Q * Q * list Q) :=
   let sizes := line_sizes c in
   map (fun p => (fst (fst p), snd (fst p), map (used (fst (fst p))) (snd p)))
       (combine (combine sizes (starts 0 (c_gap c) sizes)) (c_lines c)).
-Definition after (c : container) : container :=
-  cmk (c_cross c) (c_gap c) (map (fun p => map (write_back (fst p)) (snd p)) (combine (line_sizes c) (c_lines c))).
+(* the items as this layout pass leaves its own copies *)
+Definition laid_out_items (c : container) : list (list item) :=
+  map (fun p => map (write_back (fst p)) (snd p)) (combine (line_sizes c) (c_lines c)).
+(* what the next layout of the same boxes starts from: the writes went to copies *)
+Definition after (c : container) : container := cmk (c_cross c) (c_gap c) (c_lines c).
+(* the variant before c81ab3a: the writes went to the style shared with the original boxes *)
+Definition after_shared_style (c : container) : container := cmk (c_cross c) (c_gap c) (laid_out_items c).
 
 (* ---- judge of the correspondence stream: the container, what a single layout pass of the implementation gives and
    what the second pass gives when the same boxes are laid out again; per line (item position y, item heights) ---- *)
